@@ -19,6 +19,7 @@ import Gzx.Proofs.OneDPost
 import Gzx.Proofs.TotalQR
 import Gzx.Proofs.TotalDM
 import Gzx.Proofs.TotalQRFit
+import Gzx.Proofs.TotalDMTable
 namespace Gzx.Properties.C06
 open Gzx Gzx.BitSource Gzx.OneDPost
 
@@ -383,5 +384,60 @@ example : decodeText refTables [238, 255, 255] = .error .format := by decide
 example : decodeText refTables [66, 67] = .ok [65, 66] := by decide
 
 end DMParse
+
+/-! ## Data Matrix matrix chain: NewBitMatrixParser → readCodewords → DataBlocks_getDataBlocks
+     (model `Gzx.DMDec`, tied to the code by the `c08` / `c05` / `c06 dmmatrix` correspondence lines) -/
+
+section DMDecode
+open Gzx.DMDec Gzx.Proofs.TotalDMDec
+
+/-- C06 for the Data Matrix `BitMatrixParser` on EVERY bit matrix (any width and height, any cells): a matrix
+    whose dimensions are not in the version table (odd, < 8, > 144, width/height mismatch, 10x12 …) is a
+    FormatException; otherwise the version of those dimensions is found, its data regions are copied without
+    leaving the symbol, `readCodewords` (corner cases, Utah shapes, both sweeps) never leaves the mapping
+    matrix and returns exactly `totalCodewords` codewords, and `DataBlocks_getDataBlocks` de-interleaves
+    them without leaving a block.  Never a panic.
+    `tbl` is any version table whose entries satisfy the decidable facts `VersionOK` / `dbOK`
+    (`dm_versions_ok`: the decoder's table does). -/
+theorem dm_decode_total (tbl : List Version) (hT : ∀ v ∈ tbl, VersionOK v ∧ dbOK v = true)
+    (g : BitGrid) (hg : g.bits.size = g.width * g.height) :
+    newBitMatrixParser tbl g = .error .format ∨
+    ∃ v m cws blocks, newBitMatrixParser tbl g = .ok (v, m) ∧ v ∈ tbl ∧
+      v.symbolSizeRows = g.height ∧ v.symbolSizeColumns = g.width ∧
+      readCodewords v m = .ok cws ∧ cws.length = v.totalCodewords ∧ getDataBlocks cws v = .ok blocks := by
+  rcases newBitMatrixParser_spec tbl (fun v hv => (hT v hv).1) g hg with h | ⟨v, m, h, hm, hr, hc, hmw, hmh, hmc⟩
+  · exact Or.inl h
+  · have hread := (hT v hm).1.read
+    rw [← hmh, ← hmc] at hread
+    obtain ⟨cws, hcw, hlen⟩ := readCodewords_spec v m hmw hread
+    obtain ⟨blocks, hb⟩ := getDataBlocks_spec v (hT v hm).2 cws hlen
+    exact Or.inr ⟨v, m, cws, blocks, h, hm, hr, hc, hcw, hlen, hb⟩
+
+/-- the decoder's own table (ISO/IEC 16022 Table 7 + DMRE; `Obligations.C08.gen_versions_eq` ties it to /repo)
+    satisfies the hypotheses -/
+theorem dm_versions_ok : ∀ v ∈ versions, VersionOK v ∧ dbOK v = true :=
+  fun v hv => ⟨versions_ok v hv, List.all_eq_true.mp versions_db v hv⟩
+
+/-- C06 for the Data Matrix matrix chain with the decoder's table, unconditionally -/
+theorem dm_decode_total_versions (g : BitGrid) (hg : g.bits.size = g.width * g.height) :
+    newBitMatrixParser versions g = .error .format ∨
+    ∃ v m cws blocks, newBitMatrixParser versions g = .ok (v, m) ∧ v ∈ versions ∧
+      readCodewords v m = .ok cws ∧ cws.length = v.totalCodewords ∧ getDataBlocks cws v = .ok blocks := by
+  rcases dm_decode_total versions dm_versions_ok g hg with h | ⟨v, m, cws, blocks, h1, h2, _, _, h3, h4, h5⟩
+  · exact Or.inl h
+  · exact Or.inr ⟨v, m, cws, blocks, h1, h2, h3, h4, h5⟩
+
+-- non-vacuity: a 10x10 matrix reaches the success path; 10x12 and 9x9 are FormatExceptions; the
+-- representation invariant is needed (a BitGrid with too few cells indexes out of range)
+example : (newBitMatrixParser versions ⟨10, 10, Array.replicate 100 true⟩).map (·.1.versionNumber) = .ok 1 := by
+  decide +kernel
+example : (newBitMatrixParser versions ⟨12, 10, Array.replicate 120 false⟩).map (·.1.versionNumber) =
+    .error .format := by decide +kernel
+example : (newBitMatrixParser versions ⟨9, 9, Array.replicate 81 false⟩).map (·.1.versionNumber) =
+    .error .format := by decide +kernel
+example : (newBitMatrixParser versions ⟨10, 10, #[]⟩).map (·.1.versionNumber) =
+    .error (.panic "index out of range: bits") := by decide +kernel
+
+end DMDecode
 
 end Gzx.Properties.C06
